@@ -19,6 +19,9 @@ func init() {
 const raftT = "(*internal/raft.raft)."
 
 func runC03(e *Engine, r *Report) {
+	// borrowed mechanisms (session 6, round 8): leader completeness rests on match moving only on acknowledgements (C02); a vote survives a restart only if every record of a batch that needs an fsync gets one (C04)
+	borrow(e, r, "C02", "WMC-match-ack")
+	borrow(e, r, "C04", "LOOP-ACC")
 	voteF := r.needField("internal/raft", "raft", "vote")
 	termF := r.needField("internal/raft", "raft", "term")
 	stateF := r.needField("internal/raft", "raft", "state")
